@@ -5,6 +5,7 @@ import JoinModel.Spec
 import JoinModel.Concrete
 import JoinModel.ParseDriver
 import JoinModel.AsyncConcrete
+import JoinModel.AsyncTry
 import JoinModel.Names
 open JoinModel
 
@@ -19,7 +20,9 @@ def handleLine (line : String) : String :=
     | _, _ => id ++ "\tbadinput\t-"
   | ["SPEC", id, kind, struct, world] =>
     match Kind.ofString kind, parseInput struct, parseWorld world with
-    | some k, some p, some w => id ++ "\t" ++ showM (specRun (mkWorld w) (some "main") p k)
+    | some k, some p, some w =>
+      id ++ "\t" ++ showM (if k.isAsync && k.isTry then specRunAT (mkWorld w) (some "main") p k
+                            else specRun (mkWorld w) (some "main") p k)
     | _, _, _ => id ++ "\tbadinput"
   | ["RUN", id, kind, struct, world] =>
     match Kind.ofString kind, parseInput struct, parseWorld world with
